@@ -378,8 +378,8 @@ fn gen_small_linear(rng: &mut Rng) -> Option<KyLinear> {
     }
 }
 
-pub fn gen_spec(rng: &mut Rng) -> KySpec {
-    let char_w = rng.range(1, 4) as u8;
+pub fn gen_spec(rng: &mut Rng, huge: bool) -> KySpec {
+    let char_w = if huge { rng.range(2, 4) as u8 } else { rng.range(1, 4) as u8 };
     let type_w = rng.range(1, 4) as u8;
     let cw = usize::from(char_w);
     let tw = usize::from(type_w);
@@ -418,7 +418,25 @@ pub fn gen_spec(rng: &mut Rng) -> KySpec {
         let extra = if rng.chance(1, 3) { rng.range(1, 3) } else { 0 };
         items.push((k, gen_i16s(rng, 2 * cw - n + 1 + extra)));
     }
-    let char_dict = KyTrie { n_dicts: 0, items, with_suffix_outputs: with_suffix };
+    if huge {
+        // a trie with more than 2^16 entries, as real KyTea models have: every 3-character key
+        // over the first 42 map characters (74 088 keys)
+        let alpha: Vec<char> = char_map.iter().copied().filter(|c| !c.is_control()).take(42).collect();
+        let extra = rng.range(0, 1);
+        for &a in &alpha {
+            for &b in &alpha {
+                for &c in &alpha {
+                    let k: String = [a, b, c].iter().collect();
+                    let seed = (a as u32).wrapping_mul(31).wrapping_add(b as u32).wrapping_mul(31).wrapping_add(c as u32);
+                    let w: Vec<i16> = (0..2 * cw - 3 + 1 + extra).map(|i| ((seed.wrapping_mul(2654435761).wrapping_add(i as u32 * 97) >> 20) as i16) % 50).collect();
+                    items.push((k, w));
+                }
+            }
+        }
+        let mut seen = std::collections::BTreeSet::new();
+        items.retain(|(k, _)| seen.insert(k.clone()));
+    }
+    let char_dict = KyTrie { n_dicts: 0, items, with_suffix_outputs: with_suffix && !huge };
     let mut items: Vec<(String, Vec<i16>)> = vec![];
     for _ in 0..rng.range(1, 10) {
         let maxn = if rng.chance(1, 5) { 2 * tw } else { (2 * tw).min(4) };
